@@ -81,6 +81,36 @@ def run_c04(ck):
                      "want": {"events": False, "messages": False}})
         meta.append(("sized", "d", n, "lit", sized))
 
+    # forwarded arguments: outer parameter -> local -> asm block -> inner parameter
+    fw = range(1, 6) if quick else range(1, 9)
+    pairs = [(ok, on, k, n) for ok in "usi" for k in "usi" for on in fw for n in fw]
+    if quick:
+        pairs = [p for p in pairs if rng.random() < 0.45]
+    for ok, on, k, n in pairs:
+        top = max(on, n)
+        vals = list(range(-(1 << top) - 2, (1 << top) + 3))
+        tmpl = ("#ruledef\n{\n    emit {v: %s%d} => v\n    rel {off: %s%d} =>\n    {\n        d = off\n"
+                "        asm { emit {d} }\n    }\n}\nrel @@\n" % (k, n, ok, on))
+        jobs.append({"mode": "asm_many", "template": tmpl, "values": [spell(v, "dec") for v in vals],
+                     "want": {"events": False, "messages": False}})
+        meta.append(("fwd", k, n, "%s%d" % (ok, on), vals))
+    # literals that carry a size (leading zeros, strings) into typed parameters
+    for kind in ("u", "s", "i"):
+        for n in (1, 4, 7, 8, 9, 15, 16, 17, 24):
+            sized = []
+            for digits in (1, 2, 3, 4, 5, 6):
+                for v in (0, 1, (1 << (4 * digits - 1)) - 1, 1 << (4 * digits - 1), (1 << (4 * digits)) - 1,
+                          rng.randrange(0, 1 << (4 * digits))):
+                    sized.append((v, 4 * digits, "0x%0*x" % (digits, v)))
+                    sized.append((v & 0xf, 4 * digits, "0x%0*x" % (digits, v & 0xf)))
+            for txt in ("a", "\x7f", "az", "\u00fc", "\u00e9a", "\u20ac", "z\u00fc"):
+                b = txt.encode("utf-8")
+                if len(b) <= 3:
+                    sized.append((int.from_bytes(b, "big"), 8 * len(b), '"%s"' % txt))
+            jobs.append({"mode": "asm_many", "template": template(kind, n), "values": [t for _, _, t in sized],
+                         "want": {"events": False, "messages": False}})
+            meta.append(("sizedarg", kind, n, "lit", sized))
+
     results = common.run_jobs(jobs, ck.wd + "/jobs", per_job_timeout=120)
     events = []
     for i, (m, r) in enumerate(zip(meta, results)):
@@ -96,12 +126,20 @@ def run_c04(ck):
             bits = [1 if c == "1" else 0 for c in o["bits"]]
             if fam == "native":
                 obs.append({"pf": False, "v": v, "sg": 1, "k": 3, "d": 0, "acc": o["ok"], "bits": bits})
+            elif fam == "fwd":
+                obs.append({"v": v, "acc": o["ok"], "bits": bits})
+            elif fam == "sizedarg":
+                obs.append({"v": v[0], "acc": o["ok"], "bits": bits})
             elif fam == "pf":
                 obs.append({"pf": True, "v": 0, "sg": v[0], "k": v[1], "d": v[2], "acc": o["ok"], "bits": bits})
             else:
                 obs.append({"v": v[0], "size": v[1], "acc": o["ok"], "bits": bits})
             ck.nontrivial_add((kind, n, str(v)))
-        events.append({"ev": "sized" if fam == "sized" else "typed", "case": i, "kind": kind, "n": n, "form": form, "obs": obs})
+        ev = {"ev": fam if fam in ("sized", "fwd", "sizedarg") else "typed", "case": i, "kind": kind, "n": n, "form": form, "obs": obs,
+              "okind": "", "on": 0}
+        if fam == "fwd":
+            ev["okind"], ev["on"] = form[0], int(form[1:])
+        events.append(ev)
         if i % 60 == 0:
             ck.sample({"kind": kind, "n": n, "form": form, "first": [
                 {"text": jobs[i]["values"][j], "accepted": many[j]["ok"], "bits": many[j]["bits"]} for j in range(min(3, len(many)))]}, limit=8)
